@@ -30,6 +30,17 @@ Theorem c15_code_never_partial_under_trusted_name : forall genes d, d_final d = 
   (d_final (fst (gen_init true genes d)) = None \/ d_final (fst (gen_init true genes d)) = swapped_copy genes (d_raw d)).
 Proof. exact gen_init_final. Qed.
 
+(* the first sentence of C15 about the code: ANY sequence of loads through the translated constructor and verify_h5_cache (the
+   directory-level constructors go through one of them), from a directory holding the raw file and nothing or the complete
+   view under the trusted name (and anything under the temporary name): every load serves the strand-aware view v - never the raw
+   values, never a twice-exchanged copy - and the raw file stays what it was *)
+Theorem c15_code_idempotent : forall genes raw v ws, swapped_copy genes raw = Some v ->
+  forall d, good_disk genes raw v d ->
+    Forall (fun x => x = Some v) (gen_history genes ws d) /\ d_raw (gen_final_disk genes ws d) = raw.
+Proof.
+  intros genes raw v ws Hv d Hd. destruct (gen_loads_idempotent genes raw v ws Hv d Hd) as [H1 [H2 _]]. split; assumption.
+Qed.
+
 (* non-vacuity: two loads of a file with a minus gene in the middle; the second load serves the copy the first one made *)
 Example c15_code_example :
   let genes := [(1, 0); (2, 1); (3, 2)]%N in
@@ -43,3 +54,4 @@ Print Assumptions c09_code_swap_loop.
 Print Assumptions c15_code_constructor.
 Print Assumptions c15_code_verify_h5_cache.
 Print Assumptions c15_code_never_partial_under_trusted_name.
+Print Assumptions c15_code_idempotent.
